@@ -12,6 +12,8 @@ and `truncdiv` which is a VHDL compatible replacement
 for `floordiv`.
 """
 
+from ._integer import _int_truncdiv, _int_rem
+
 
 def lt(a, b, /):
     return a < b
@@ -82,7 +84,7 @@ def rem(a, b, /):
     """
 
     if isinstance(a, int) and isinstance(b, int):
-        return a - b * int(a / b)
+        return _int_rem(a, b)
     else:
         if hasattr(a, "_cohdl_rem_"):
             rem_result = a._cohdl_rem_(b)
@@ -112,7 +114,7 @@ def truncdiv(a, b, /):
 
     if isinstance(a, int) and isinstance(b, int):
         # explicitly handle integer division
-        return int(a / b)
+        return _int_truncdiv(a, b)
     else:
         if hasattr(a, "_cohdl_truncdiv_"):
             rem_result = a._cohdl_truncdiv_(b)
